@@ -25,6 +25,7 @@ func init() {
 }
 
 func checkC05(c *Ctx, r *Report) {
+	defer optionsThreadedRule(c, r)
 	r.Assumption("equality of the normalized data over all representations (numeric equality, nil vs empty) is value-level and not decided")
 	kt, kinds := reflectKind(c)
 	NV := c.Func("", "normalizeValue")
@@ -468,4 +469,52 @@ func namedStoreRule(c *Ctx, r *Report, rule string) {
 		r.Check(n >= 1, rule, c.FnName(fn), "hands pairs to normalizeSetField", c.Pos(fn.Pos()), fmt.Sprintf("%d call(s)", n), name+" no longer stores its settings through normalizeSetField")
 	}
 
+}
+
+// optionsThreadedRule (R05g): how the parts of one input are put together — where a name is split, what counts as a
+// list index, which policy joins a dotted and a nested spelling of the same object — is decided by the options of the
+// NewFrom/Merge call, the same for every part. Inside the normalize family the *options of the call are therefore
+// handed on as they are: a callee that gets options derived per field (the reader's accessField replaces the merging
+// policy by the field's tag) combines the pieces of that field's value differently from the same data given as a map.
+func optionsThreadedRule(c *Ctx, r *Report) {
+	r.Rule("R05g", "every call from one normalize function to another hands over the caller's own *options parameter: no options derived per field or per key take part in putting an input together", 18)
+	isOpts := func(t types.Type) bool {
+		pt, ok := t.(*types.Pointer)
+		return ok && isNamed(pt.Elem(), c.Pkgs[""].PkgPath, "options")
+	}
+	for _, fn := range c.SrcFuncs() {
+		if fn.Pkg != c.SSA[""] || fn.Parent() != nil || !strings.HasPrefix(fn.Name(), "normalize") {
+			continue
+		}
+		var own ssa.Value
+		for _, p := range fn.Params {
+			if isOpts(p.Type()) {
+				own = p
+			}
+		}
+		for _, ci := range CallsIn(fn, true) {
+			g := ci.Common().StaticCallee()
+			if g == nil || g.Pkg != c.SSA[""] || !strings.HasPrefix(g.Name(), "normalize") {
+				continue
+			}
+			for _, a := range ci.Common().Args {
+				if !isOpts(a.Type()) {
+					continue
+				}
+				ok := own != nil
+				if ok {
+					for _, src := range Sources(a) {
+						if src != own {
+							if fv, isFV := src.(*ssa.FreeVar); isFV && freeVarBinding(fv) == own {
+								continue
+							}
+							ok = false
+						}
+					}
+				}
+				r.Check(ok, "R05g", c.FnName(fn), "options handed to "+g.Name(), c.Pos(ci.Pos()), "the caller's own options",
+					"a normalize function hands options of another origin ("+describeVals(Sources(a))+") to "+g.Name()+": the parts of this value are put together under options derived for one field or key (a merging policy from a struct tag, say), so the same data normalises differently as a struct, as a map, dotted or nested")
+			}
+		}
+	}
 }
